@@ -110,6 +110,42 @@ def near_tags(rng):
     return out
 
 
+F16 = {'audio_format': 20, 'num_channels': 22, 'block_align': 32, 'bits_per_sample': 34}
+F32 = {'sample_rate': 24, 'byte_rate': 28}
+
+
+def small_fields(rng, thorough):
+    """every 16-bit field of the format chunk set to every small value 0..9, one field at a time and two at a time
+    (all pairs of fields x all pairs of values), on otherwise valid headers; then the helpers run on whatever structure
+    results.  Degenerate-but-accepted headers (0 or tiny channels / block alignment / bits per sample) are where
+    arithmetic in the helpers can fault."""
+    out = []
+    bases = c13.valid_headers(rng)
+    base = bases[0]                                                # 44-byte PCM
+    offs = sorted(F16.values())
+    for o in offs:
+        for v in range(10):
+            b = bytearray(base); b[o:o + 2] = pw.le(v, 2); out.append(hist(len(b), bytes(b)))
+    for i, o1 in enumerate(offs):
+        for o2 in offs[i + 1:]:
+            for v1 in range(10):
+                for v2 in range(10):
+                    b = bytearray(base); b[o1:o1 + 2] = pw.le(v1, 2); b[o2:o2 + 2] = pw.le(v2, 2)
+                    out.append(hist(len(b), bytes(b)))
+    for hdr in bases[1:] * (4 if thorough else 1):                 # the other header kinds: random subsets of fields, small values
+        for _ in range(6):
+            b = bytearray(hdr)
+            for o in rng.shuffle(list(offs))[:rng.range(1, 4)]:
+                b[o:o + 2] = pw.le(rng.below(10), 2)
+            if rng.chance(1, 3):
+                o = rng.choice(sorted(F32.values()) + [len(hdr) - 4]); b[o:o + 4] = pw.le(rng.below(10), 4)
+            if rng.chance(1, 4) and pw.u(b, 16, 4) >= 18:
+                b[36:38] = pw.le(rng.below(10), 2)
+            sz = len(b) if rng.chance(3, 4) else rng.range(36, len(b))  # also after failed / incomplete decodes
+            out.append(hist(sz, bytes(b)))
+    return out
+
+
 def harness(ctx):
     return c13.harness(ctx)
 
@@ -140,6 +176,8 @@ def run(ctx):
     hs += [adversarial(rng) if i % 3 else narrowed(rng) for i in range(nadv)]
     near = near_tags(rng)
     hs += near
+    small = small_fields(rng, not q)
+    hs += small
     nrand = 400 if q else 20000
     for _ in range(nrand):                                        # random bytes of every small length
         n = rng.range(0, 100)
@@ -164,12 +202,12 @@ def run(ctx):
         ctx.cov['line_coverage_of_modelled_code'] = pw.uncovered_lines(ctx, os.path.join(vlib.VERIF, 'harness/h_wav.c'),
             [R + '/librfn/wavheader.c', R + '/librfn/pack.c', R + '/librfn/string.c', R + '/librfn/util.c', R + '/librfn/posix/time_posix.c'], hs)
     ctx.cov['decode_results'] = kinds
-    ctx.cov['histories'] = {'corpus': ncorpus, 'truncation_points': ntrunc, 'field_mutated': nmut, 'adversarial_size_fields': nadv, 'near_miss_tags': len(near), 'random_bytes': nrand}
+    ctx.cov['histories'] = {'corpus': ncorpus, 'truncation_points': ntrunc, 'field_mutated': nmut, 'adversarial_size_fields': nadv, 'near_miss_tags': len(near), 'small_16bit_fields_singly_and_in_pairs': len(small), 'random_bytes': nrand}
     ctx.sample({'history': [x[:150] for x in hs[ncorpus + 50]]})
     ctx.sample({'history': [x[:150] for x in hs[-20]]})
     ctx.cov['rule'] = ('each history = decode(exactly-sized heap copy of sz bytes) then validate, get_format, tostring on whatever structure resulted; inputs: every truncation point of valid PCM / float+fact / '
                        'extensible headers, the complete headers with trailing payload, 1-3 field mutations (size fields from {0..41, 0x7fffff00+-1, 0x80000000, 0xffffffff-r}, tags, cb_size, truncation/extension), '
-                       'adversarial fmt/RIFF size fields on plausible headers, random bytes of length 0..100; distinct = distinct op list; non-trivial = at least the 36 fixed bytes supplied')
+                       'adversarial fmt/RIFF size fields on plausible headers, every 16-bit format field set to 0..9 singly and in all pairs (helpers then run on the degenerate structure), random bytes of length 0..100; distinct = distinct op list; non-trivial = at least the 36 fixed bytes supplied')
     ctx.assumptions.append(META['level_note'])
 
 
